@@ -427,7 +427,9 @@ func isLocalName(name string, allowEmpty bool) bool {
 	if name == "" {
 		return allowEmpty
 	}
-	return filepath.IsLocal(name)
+	// a name that comes down to the directory itself ("a/..") would, with a
+	// staging extension appended, denote a sibling of that directory
+	return filepath.IsLocal(name) && filepath.Clean(name) != "."
 }
 
 // partsAreLocal checks the names carried by the parts of a payload
